@@ -158,6 +158,13 @@ def bounded_graphs(sess: Session):
                      f'node', cases, 'small-scope enumeration on the real methods (stub get_related = adjacency)',
                      not fails)
     report_graph_failures(sess, fails, PROP)
+    if sess.tier == 'thorough':
+        for nn in (5, 6, 7):
+            cases, fails = G.sample('paths', nn, 3000, seed=sess.seed)
+            sess.add_bounded('wn._core._Relatable.relation_paths / closure (larger graphs)',
+                             f'{cases} random digraphs with {nn} nodes (seed {sess.seed}; half of them acyclic)', cases,
+                             'random sampling on the real methods', not fails)
+            report_graph_failures(sess, fails, PROP)
 
 
 def report_graph_failures(sess, fails, prop, known=None):
